@@ -101,7 +101,7 @@ func c17Lattice(ctx *core.Ctx) {
 						ctx.Count("explicit=" + ex.tag)
 						ctx.Count("cpn=" + strings.SplitN(cp.tag, ":", 2)[0])
 						ctx.Count("files=" + fs.tag)
-						ctx.Add("c17load", a)
+						ctx.Add("c17load", a.wire())
 					}
 				}
 			}
@@ -152,7 +152,7 @@ func c17Lattice(ctx *core.Ctx) {
 				}
 				ctx.Count("lattice-env")
 				ctx.Count(fmt.Sprintf("env-subset=%04b", mask))
-				ctx.Add("c17load", a)
+				ctx.Add("c17load", a.wire())
 			}
 		}
 	}
@@ -196,7 +196,7 @@ func c17WorkdirLattice(ctx *core.Ctx) {
 						}
 						ctx.Count("lattice-workdir")
 						ctx.Count("workdir=" + mode)
-						ctx.Add("c17load", a)
+						ctx.Add("c17load", a.wire())
 					}
 				}
 			}
@@ -240,6 +240,10 @@ func c17RandName(r *rand.Rand) string {
 }
 
 func c17RandEnvFile(r *rand.Rand, name string, malformed bool) c17EnvFile {
+	if r.Intn(6) == 0 {
+		t := c17FreeFormEnv(r, malformed)
+		return c17EnvFile{N: name, Text: &t}
+	}
 	f := c17EnvFile{N: name, Lines: [][2]string{}}
 	for i, n := 0, r.Intn(5); i < n; i++ {
 		v := pick(r, c17EnvValues)
@@ -475,20 +479,25 @@ func runC17(ctx *core.Ctx) {
 	// 1. exhaustive lattices of the property
 	c17Lattice(ctx)
 	c17WorkdirLattice(ctx)
+	c17ConfigLattice(ctx)
 	ctx.Res.Exhaustive = true
 
 	// 2. seeded random worlds: documented order (spec oracle applies), then any order (model correspondence + invariants)
 	for i := 0; i < ctx.Pick(6000, 150000); i++ {
 		ctx.Count("random-documented-order")
-		ctx.Add("c17load", c17Random(ctx.Rng, true, false))
+		ctx.Add("c17load", c17Random(ctx.Rng, true, false).wire())
 	}
 	for i := 0; i < ctx.Pick(4000, 100000); i++ {
 		ctx.Count("random-any-order")
-		ctx.Add("c17load", c17Random(ctx.Rng, false, false))
+		ctx.Add("c17load", c17Random(ctx.Rng, false, false).wire())
+	}
+	for i := 0; i < ctx.Pick(3000, 80000); i++ {
+		ctx.Count("random-config-selection")
+		ctx.Add("c17load", c17RandomCfg(ctx.Rng, i%2 == 0))
 	}
 	// 3. malformed stream
 	for i := 0; i < ctx.Pick(2500, 50000); i++ {
 		ctx.Count("malformed")
-		ctx.Add("c17load", c17Random(ctx.Rng, ctx.Rng.Intn(2) == 0, true))
+		ctx.Add("c17load", c17Random(ctx.Rng, ctx.Rng.Intn(2) == 0, true).wire())
 	}
 }
